@@ -83,6 +83,13 @@ def gen_plan(seed, tier="quick"):
         x = plans.rng_for(seed, PROP + "-rx")
         for op in plan["callers"][0]["ops"]:
             sp = op["cmd"]
+            if not long_run:
+                # every public way in: send() with each form of the exceptions option (hid), run_sequence()
+                y = x.random()
+                if y < 0.15:
+                    op["kind"], op["items"] = "seq", [["cmd", sp]]
+                elif y < 0.45 and eng in ("tridonic", "hasseb"):
+                    op["exceptions"] = x.choice([True, False, False])
             if supported(eng, sp[0]) and not long_run:
                 o = plans.gen_outcome(x, cmds.mk_cmd(sp), p_error=0.2)
                 if o and o[0] == "value":
@@ -201,8 +208,10 @@ def judge_async(rr):
                 V("unsupported-length-not-refused", "unit %s: %d-bit frame %x reached the gateway as %s" % (
                     u, spec[0], spec[1], [r_["raw"].hex() for r_ in recs][:2]), site="octet-multiple" if spec[0] % 8 == 0 else "partial-octet")
             elif rec.status != "raised":
-                V("unsupported-length-not-refused", "unit %s: send of a %d-bit frame returned %r" % (
-                    u, spec[0], rec.result), site="octet-multiple" if spec[0] % 8 == 0 else "partial-octet")
+                V("unsupported-length-not-refused", "unit %s: %s of a %d-bit frame (exceptions=%r): %s %r" % (
+                    u, "run_sequence" if rec.op["kind"] == "seq" else "send", spec[0], rec.op.get("exceptions"),
+                    rec.status, rec.result), site="spins" if rec.status == "livelock" else
+                  ("octet-multiple" if spec[0] % 8 == 0 else "partial-octet"))
             else:
                 rr.world.probe("refused-unsupported-length")
             continue
@@ -244,7 +253,8 @@ def judge_async(rr):
         o = rec.op.get("outs", {}).get("%d:%d" % (spec[0], spec[1]))
         if o is not None and u.startswith("A.") and not slow:
             rr.world.probe("rx-" + o[0])
-            judge_response(lambda c_, d_, site=None: V("rx-" + c_, d_, site=site), drv, u, cmd, o, rec.result,
+            result = rec.result if rec.op["kind"] == "send" else (rec.responses[0] if rec.responses else None)
+            judge_response(lambda c_, d_, site=None: V("rx-" + c_, d_, site=site), drv, u, cmd, o, result,
                            False, set(), drv in ("luba", "sci"))
     if drv == "tridonic":
         seqs = [s["seq"] for s in rr.dev.sends]
